@@ -120,4 +120,40 @@ theorem vidJudgeAll_iff : ∀ (ids : List Nat), vidJudgeAll ids = true ↔ Disti
     rw [vidJudge_iff, ← vidJudgeAll_iff rest]
     simp [vidJudgeAll]
 
+/-! ## a heartbeat and the assigns racing with it
+
+"No assignment returns a key already used in the target volume": a volume server's heartbeat reports the
+largest key in use in any of its volumes (`maxFileKey`) together with the volumes (`vols`).  Every grant
+`(vid, key)` handed out once the master has seen that heartbeat — the master can only grant on `vid ∈ vols`
+after it has seen it — must carry a key above `maxFileKey`. -/
+
+def hbClass : String := "SendHeartbeat/assign-before-setmax-returns-used-key"
+
+/-- the property for the grants observed around one heartbeat -/
+def HbGood (maxFileKey : Nat) (vols : List Nat) (grants : List (Nat × Nat)) : Prop :=
+  ∀ g ∈ grants, g.1 ∈ vols → maxFileKey < g.2
+
+/-- executable form: the first grant on one of the heartbeat's volumes whose key is not above the reported max -/
+def hbBad (maxFileKey : Nat) (vols : List Nat) (grants : List (Nat × Nat)) : Option (Nat × Nat) :=
+  grants.find? fun g => vols.contains g.1 && decide (g.2 ≤ maxFileKey)
+
+/-- the judge of the driver for an `hbrace` line -/
+def hbJudge (maxFileKey : Nat) (vols : List Nat) (grants : List (Nat × Nat)) : Option String :=
+  (hbBad maxFileKey vols grants).map fun _ => hbClass
+
+/-- the judge's executable test is exactly the property -/
+theorem hbJudge_none_iff (m : Nat) (vols : List Nat) (grants : List (Nat × Nat)) :
+    hbJudge m vols grants = none ↔ HbGood m vols grants := by
+  unfold hbJudge hbBad HbGood
+  rw [Option.map_eq_none_iff, List.find?_eq_none]
+  constructor
+  · intro h g hg hv
+    have := h g hg
+    simp at this
+    exact this hv
+  · intro h g hg
+    simp
+    intro hv
+    exact h g hg hv
+
 end SwV.Spec.C13
